@@ -317,7 +317,15 @@ func scanModSub(c *core.Ctx) []ob {
 				if rd == nil {
 					rd = reachingDefs(info, fd)
 				}
-				rhs, initial, ok := rd.defsAt(at, v)
+				use := rd
+				// inside a closure: the definitions that reach are those of the closure's own body
+				if lit := enclosingFuncLit(parentMapCached(fd), at); lit != nil {
+					if litDecls[lit] == nil {
+						litDecls[lit] = &ast.FuncDecl{Name: ast.NewIdent("closure"), Type: lit.Type, Body: lit.Body}
+					}
+					use = reachingDefs(info, litDecls[lit])
+				}
+				rhs, initial, ok := use.defsAt(at, v)
 				if !ok || initial || len(rhs) == 0 {
 					return false
 				}
@@ -1001,7 +1009,15 @@ func scanCRedForm(c *core.Ctx) []ob {
 				if rd == nil {
 					rd = reachingDefs(info, fd)
 				}
-				rhs, initial, ok := rd.defsAt(at, v)
+				use := rd
+				// inside a closure: the definitions that reach are those of the closure's own body
+				if lit := enclosingFuncLit(parentMapCached(fd), at); lit != nil {
+					if litDecls[lit] == nil {
+						litDecls[lit] = &ast.FuncDecl{Name: ast.NewIdent("closure"), Type: lit.Type, Body: lit.Body}
+					}
+					use = reachingDefs(info, litDecls[lit])
+				}
+				rhs, initial, ok := use.defsAt(at, v)
 				if !ok || initial || len(rhs) == 0 {
 					return false
 				}
@@ -1157,4 +1173,16 @@ func init() {
 			out = append(out, core.Floor("KERNELUNIQ", nil, "one-call dispatch methods of package ring", c.Stats["kerneluniq_sites"], 30)...)
 			return out
 		}})
+}
+
+// litDecls: closures wrapped as declarations so that the per-function analyses can be run on their bodies.
+var litDecls = map[*ast.FuncLit]*ast.FuncDecl{}
+
+func enclosingFuncLit(pm map[ast.Node]ast.Node, n ast.Node) *ast.FuncLit {
+	for p := pm[n]; p != nil; p = pm[p] {
+		if fl, ok := p.(*ast.FuncLit); ok {
+			return fl
+		}
+	}
+	return nil
 }
